@@ -43,3 +43,11 @@ TB = ("trusted base: patched Go 1.26.8 runtime + testing/synctest, the SimNet fa
 text("C03",
      "seeded exploration of datagram-adversary schedules (drop/dup/reorder/bit-flip per region/truncate/extend/reflect/late replay/forged data and control packets from third and spoofed addresses) against real client+server sessions, with a multiset reference model for authentic at-most-once delivery, a byte-stream model for Write completeness on the fault-free configuration, an undisturbed-session probe after the storm and a wire scan for plaintext secrets",
      TB, "deterministic simulation with fault injection (seeded schedule search, reference-model oracle)", "DESIGN.md 4 C03")
+
+add("C08", "exploration",
+    [{"name": "tube-stream", "quick_s": 40, "thorough_s": 900}],
+    real=["tubes (Muxer, Reliable, sender, receiver, frames, priority queue)", "common.DeadlineChan"],
+    stub=["transport session under the muxers (replaced by a simulated MsgConn pair so that frame-level faults are exact)"])
+text("C08",
+     "seeded exploration of packet-fault schedules (loss up to 60 %, duplication, reordering by jitter and long delays, loss bursts, total and one-way outages from 0.1 s to 10 simulated minutes followed by recovery) under 1-3 reliable tubes with both directions active, write-size profiles from 1 byte to several windows; prefix oracle on every Read against the canonical written stream, end-of-stream position oracle at the end that stays open, bounded-liveness oracle (every written byte readable within 5 simulated minutes after the last fault)",
+     TB + "; the liveness bound (5 min) is a harness parameter, not mirrored from the code", "deterministic simulation with fault injection (seeded fault-schedule search, prefix/EOF/bounded-liveness oracles)", "DESIGN.md 4 C08")
